@@ -18,3 +18,6 @@ open SteelVerif.C15
 #print axioms not_scan_exclusive_code
 #print axioms not_env_coherent_code
 #print axioms goodRound_completes_code
+#print axioms inv_scan
+#print axioms primRound_scans
+#print axioms primRound_completes
